@@ -22,9 +22,10 @@ type ParserData struct {
 	}
 	loopLayer int // 当前loop层数
 	codeStack []struct {
-		code    []ByteCode
-		index   int
-		textPos int
+		code      []ByteCode
+		index     int
+		textPos   int
+		loopLayer int
 	}
 }
 
@@ -361,12 +362,16 @@ func (p *ParserData) AddAttrSet(objName string, attr string, isRaw bool) {
 
 func (p *ParserData) CodePush(textPos int) {
 	p.codeStack = append(p.codeStack, struct {
-		code    []ByteCode
-		index   int
-		textPos int
-	}{code: p.code, index: p.codeIndex, textPos: textPos})
+		code      []ByteCode
+		index     int
+		textPos   int
+		loopLayer int
+	}{code: p.code, index: p.codeIndex, textPos: textPos, loopLayer: p.loopLayer})
 	p.code = make([]ByteCode, 256)
 	p.codeIndex = 0
+	// a function or computed body is compiled into its own code block: a loop
+	// around the definition is not a loop that its break/continue could leave
+	p.loopLayer = 0
 }
 
 func (p *ParserData) CodePop() ([]ByteCode, int, int) {
@@ -377,5 +382,6 @@ func (p *ParserData) CodePop() ([]ByteCode, int, int) {
 	p.codeStack = p.codeStack[:last]
 	p.code = info.code
 	p.codeIndex = info.index
+	p.loopLayer = info.loopLayer
 	return lastCode, lastIndex, info.textPos
 }
